@@ -171,6 +171,10 @@ def gen_cases(ctx):
                 sp = [g["spacing"][j] * g["size"][j] / sz[j] for j in range(D)]
             c["disp_grid"] = {"size": sz, "spacing": sp, "center": g["center"], "direction": g["direction"], "ac": g["ac"]}
             c["lattice_other"] = [[rng.randrange(s) for s in sz] for _ in range(2)]
+        # composite (sequential) classes re-express the map for ANY other grid (CompositeTransform.disp)
+        if cls in COMPOSITE:
+            c["disp_any"] = rgrid(rng, D)
+            c["lattice_any"] = [[rng.randrange(s) for s in c["disp_any"]["size"]] for _ in range(2)]
         axes = ["grid", "cube", "cube_corners", "world"]
         pa = {"axes": rng.choice(axes), "to_axes": rng.choice(axes), "grid": rgrid(rng, D) if rng.random() < 0.6 else None,
               "to_grid": rgrid(rng, D) if rng.random() < 0.6 else None}
@@ -295,6 +299,12 @@ def checks_for(c, r):
                 go = qgrid(r["disp_grid"])
                 for idx, dv in zip(c["lattice_other"], r["disp_other"][kk]):
                     out.append(f"vcloser tol (view_disp (K:=QcF) {D} {f} {Mq} (qlattice {D} {ac} {go} {qc_vec([float(v) for v in idx])})) {qc_vec(dv)}")
+            if "disp_any" in r:
+                ga = qgrid(r["disp_any_grid"])
+                aca = cb(r["disp_any_grid"]["ac"])
+                for idx, dv in zip(c["lattice_any"], r["disp_any"][kk]):
+                    out.append(f"vcloser tolw (field_of_world_map (K:=QcF) {D} (world_map (K:=QcF) {D} {f} {Mq} {ac} {g}) {aca} {ga} "
+                               f"(qlattice {D} {aca} {ga} {qc_vec([float(v) for v in idx])})) {qc_vec(dv)}")
             wp = c["world_points"][kk if len(c["world_points"]) > 1 else 0]
             for x, y in zip(wp, r["points_world"][kk]):
                 out.append(f"vcloser tolw (gen_points_world (K:=QcF) {D} {f} {ac} (gN {D} {g}) (gS {D} {g}) (gC {D} {g}) (gD {D} {g}) {Mq} {qc_vec(x)}) {qc_vec(y)}")
